@@ -21,9 +21,9 @@ mcMsgKinds == { [key |-> "", attrs |-> <<>>], [key |-> "K", attrs |-> <<>>] }
 mcPrefixPairs == {}
 mcTickDs == {1, 2, 3, 4, 6, 10}
 mcProjOfName == <<>>
-mcOps == {"Publish", "Pull", "PullWait", "Ack", "ModAck", "SeekTime", "ExpireSubs", "Tick", "SetDelay", "CreateSub",
+mcOps == {"Publish", "Pull", "PullWait", "UpdateSub", "Ack", "ModAck", "SeekTime", "ExpireSubs", "Tick", "SetDelay", "CreateSub",
           "PruneExpiredDeliveries", "Get"}
 W0 == [op \in mcOps |-> 1]
 mcWeights == [W0 EXCEPT !["Publish"] = 6, !["Pull"] = 8, !["PullWait"] = 5, !["Ack"] = 3, !["ExpireSubs"] = 5, !["Tick"] = 10,
-                        !["SetDelay"] = 2, !["SeekTime"] = 2, !["CreateSub"] = 2]
+                        !["SetDelay"] = 2, !["UpdateSub"] = 4, !["SeekTime"] = 2, !["CreateSub"] = 2]
 =============================================================================
